@@ -101,6 +101,85 @@ def pairsSF : List String → List (String × Float)
   | a :: b :: r => (a, pF b) :: pairsSF r
   | _ => []
 
+def optName (s : String) : Option String := if s == "-" then none else some s
+
+partial def parseVal : List String → Option (Val × List String)
+  | "F" :: i :: r => some (.fixed (pI i), r)
+  | "Z" :: r => some (.none, r)
+  | "P" :: i :: c :: n :: r => some (.prior (pN i) (pN c) (optName n), r)
+  | "L" :: k :: r => do
+      let (vs, r) ← parseVals (pN k) r
+      pure (.lst vs, r)
+  | "D" :: k :: r => do
+      let (kvs, r) ← parseKVs (pN k) r
+      pure (.dict kvs, r)
+  | "X" :: dim :: k :: r => do
+      let (kvs, r) ← parseKVs (pN k) r
+      pure (.xarr dim kvs, r)
+  | "T" :: n :: f :: k :: r => do
+      let (vs, r) ← parseVals (pN k) r
+      pure (.tprior (optName n) f vs, r)
+  | "C" :: n :: r => do
+      let (re, r) ← parseVal r
+      let (im, r) ← parseVal r
+      pure (.cprior (optName n) re im, r)
+  | _ => none
+where
+  parseVals : Nat → List String → Option (List Val × List String)
+    | 0, r => some ([], r)
+    | n + 1, r => do
+        let (v, r) ← parseVal r
+        let (vs, r) ← parseVals n r
+        pure (v :: vs, r)
+  parseKVs : Nat → List String → Option (List (String × Val) × List String)
+    | 0, r => some ([], r)
+    | n + 1, k :: r => do
+        let (v, r) ← parseVal r
+        let (kvs, r) ← parseKVs n r
+        pure ((k, v) :: kvs, r)
+    | _, [] => none
+
+partial def showMap : MapE → String
+  | .fixed i => toString i
+  | .none => "None"
+  | .par i => "_parameter_" ++ toString i
+  | .lst es => "[" ++ " ".intercalate (es.map showMap) ++ "]"
+  | .dict kvs => "{" ++ " ".intercalate (kvs.map fun kv => kv.1 ++ "=" ++ showMap kv.2) ++ "}"
+  | .xarr d kvs => "<" ++ d ++ " " ++ " ".intercalate (kvs.map fun kv => kv.1 ++ "=" ++ showMap kv.2) ++ ">"
+  | .app f es => "(" ++ f ++ " " ++ " ".intercalate (es.map showMap) ++ ")"
+
+partial def showObj : Obj → String
+  | .fixed i => toString i
+  | .none => "None"
+  | .lst es => "[" ++ " ".intercalate (es.map showObj) ++ "]"
+  | .dict kvs => "{" ++ " ".intercalate (kvs.map fun kv => kv.1 ++ "=" ++ showObj kv.2) ++ "}"
+  | .xarr d kvs => "<" ++ d ++ " " ++ " ".intercalate (kvs.map fun kv => kv.1 ++ "=" ++ showObj kv.2) ++ ">"
+  | .app f es => "(" ++ f ++ " " ++ " ".intercalate (es.map showObj) ++ ")"
+
+def parseModel (toks : List String) : Option ModelState := do
+  let (a, r) ← parseVal toks
+  let (b, r) ← parseVal r
+  let (c, r) ← parseVal r
+  let (d, r) ← parseVal r
+  if r.isEmpty then pure (ModelState.init a b c d) else none
+
+def showState (s : ModelState) : String :=
+  " ; ".intercalate (s.maps.map fun kv => kv.1 ++ ": " ++ showMap kv.2) ++ " ; names: " ++ ",".intercalate s.mapper.names
+
+partial def parseSTree : List String → Option (STree × List String)
+  | "S" :: k :: r =>
+      let rec kvs : Nat → List String → Option (List (String × Int) × List String)
+        | 0, r => some ([], r)
+        | n + 1, key :: v :: r => do let (rest, r) ← kvs n r; pure ((key, pI v) :: rest, r)
+        | _, _ => none
+      do let (l, r) ← kvs (pN k) r; pure (.prim l, r)
+  | "M" :: k :: r =>
+      let rec cs : Nat → List String → Option (List STree × List String)
+        | 0, r => some ([], r)
+        | n + 1, r => do let (c, r) ← parseSTree r; let (rest, r) ← cs n r; pure (c :: rest, r)
+      do let (l, r) ← cs (pN k) r; pure (.comp l, r)
+  | _ => none
+
 def step (line : String) : String :=
   match (line.trimAscii.toString.splitOn " ").filter (· ≠ "") with
   -- C19 ---------------------------------------------------------------
@@ -286,6 +365,28 @@ def step (line : String) : String :=
   | ["miepointrad", a, b, c, d, e, f, kr, th, ph, e1, e2] =>
       let r := miePointRad (⟨pF a, pF b⟩ : Cx Float) ⟨pF c, pF d⟩ ⟨pF e, pF f⟩ (pF kr) (pF th) (pF ph) (pF e1) (pF e2)
       sFs (flatCx [r.1, r.2.1, r.2.2])
+  -- C11 ---------------------------------------------------------------
+  | "mapper" :: toks =>
+      match parseModel toks with
+      | some st => showState st
+      | none => "bad-op"
+  | "readmaps" :: nv :: rest =>
+      let vals := (rest.take (pN nv)).map pI
+      match parseModel (rest.drop (pN nv)) with
+      | some st => " ; ".intercalate (st.maps.map fun kv => kv.1 ++ ": " ++ showObj (readMap vals kv.2))
+      | none => "bad-op"
+  | "addtie" :: nn :: k :: rest =>
+      let tie := rest.take (pN k)
+      match parseModel (rest.drop (pN k)) with
+      | some st =>
+        match st.addTie tie (optName nn) with
+        | some st' => showState st'
+        | none => "err:ValueError"
+      | none => "bad-op"
+  | "flatten" :: toks =>
+      match parseSTree toks with
+      | some (t, []) => " ".intercalate (t.flatten.map fun kv => keyText kv.1 ++ "=" ++ toString kv.2)
+      | _ => "bad-op"
   | ["genfailures"] => toString (translationFailures ++ projTranslationFailures)
   | _ => "bad-op"
 
